@@ -626,6 +626,13 @@ def id_ops(st):
         if 1 <= len(s) <= 2 and "?" not in s:
             yield {"q": "guids", "ids": s + s[:1]}  # an identifier listed twice names its member once
     idents = sorted({c["id"] for c in ch} | {c["name"] for c in ch if c["name"]})
+    # identifiers are compared exactly: another letter case of an identifier that is present names nothing
+    for x in idents[:2]:
+        for y in (x.upper(), x.lower(), x.title()):
+            if y not in idents:
+                yield {"q": "identifiers", "ids": [y]}
+                yield {"q": "identifiers", "ids": [y, idents[-1]]}
+                break
     for s in subsets(idents + [UNKNOWN_IDENT]):
         yield {"q": "identifiers", "ids": s}
         if len(s) == 1:
